@@ -31,6 +31,10 @@ type Scenario struct {
 	Order  [][]any         `json:"order"`
 	Fault  Fault           `json:"fault"`
 	Expect json.RawMessage `json:"expect"`
+	// PauseAt > 0: in the stepwise run the writer is silent for PauseMs after the PauseAt-th record (an event whose
+	// records arrive with a gap shorter than the reassembly time-out is still ONE event)
+	PauseAt int `json:"pauseAt"`
+	PauseMs int `json:"pauseMs"`
 }
 
 type ObsEvent struct {
@@ -127,6 +131,9 @@ func runOne(id int, sc Scenario, seed int64) Rec {
 		e := int(sc.Order[i][0].(float64))
 		kind := sc.Order[i][1].(string)
 		alive = l.SendRaw(line(e, kind)) && l.Barrier()
+		if sc.PauseAt == pos && sc.PauseMs > 0 {
+			time.Sleep(time.Duration(sc.PauseMs) * time.Millisecond)
+		}
 		if alive && failAt != 0 {
 			l.Settle()
 			alive = !l.Retd
@@ -381,6 +388,9 @@ func main() {
 	// the same scenarios with the stream queued as a backlog, and failing writes reported while Read is busy
 	n0 := len(recs)
 	for i, sc := range scs {
+		if sc.PauseAt > 0 {
+			continue
+		}
 		if sc.Fault.Kind != "badlogin" && (i%*backlogEvery == 0 || sc.Fault.Kind == "malformed") {
 			r := runBacklog(n0+i, sc, *seed*100003+int64(i))
 			recs = append(recs, r)
